@@ -18,166 +18,7 @@
 #include <stdlib.h>
 #include "channel.c" /* the real code, included so that static helpers are encoded too */
 
-#ifndef R
-#define R 3
-#endif
-#define CAP_MAX (((size_t)1) << 40)
-#define CYC_MAX (((size_t)1) << 62)
-
-enum { W_IDLE = 0, W_MAPPED = 1 };
-
-struct ival { size_t b, e; };
-struct ulist { struct ival a, b; }; /* normalised: empty intervals dropped / moved to the back as (0,0) */
-
-static struct ulist
-norm(struct ival x, struct ival y)
-{
-    struct ulist u;
-    int xe = x.b == x.e, ye = y.b == y.e;
-    struct ival z = { 0, 0 };
-    if (xe && ye) { u.a = z; u.b = z; }
-    else if (xe) { u.a = y; u.b = z; }
-    else if (ye) { u.a = x; u.b = z; }
-    else if (x.e == y.b) { u.a.b = x.b; u.a.e = y.e; u.b = z; } /* adjacent: merge */
-    else { u.a = x; u.b = y; }
-    return u;
-}
-static int
-ueq(struct ulist p, struct ulist q)
-{
-    return p.a.b == q.a.b && p.a.e == q.a.e && p.b.b == q.b.b && p.b.e == q.b.e;
-}
-static size_t
-ulen(struct ulist u)
-{
-    return (u.a.e - u.a.b) + (u.b.e - u.b.b);
-}
-/* unread list of reader slot i */
-static struct ulist
-U(const struct channel* c, unsigned i)
-{
-    struct ival x, y = { 0, 0 };
-    if (c->holds.cycles[i] == c->cycle) {
-        x.b = c->holds.pos[i]; x.e = c->head;
-    } else {
-        x.b = c->holds.pos[i]; x.e = c->high;
-        y.b = 0; y.e = c->head;
-    }
-    return norm(x, y);
-}
-/* drop the first k bytes of u (k <= ulen) */
-static struct ulist
-udrop(struct ulist u, size_t k)
-{
-    size_t la = u.a.e - u.a.b;
-    struct ival z = { 0, 0 };
-    if (k < la) { u.a.b += k; return u; }
-    k -= la;
-    u.a = u.b; u.b = z;
-    u.a.b += k;
-    if (u.a.b == u.a.e) u.a = z;
-    return u;
-}
-static int
-disjoint(size_t b0, size_t e0, size_t b1, size_t e1)
-{
-    return b0 == e0 || b1 == e1 || e0 <= b1 || e1 <= b0;
-}
-
-/* ---- representation invariant ------------------------------------------------------- */
-static int
-inv_reader_slot(const struct channel* c, unsigned i)
-{
-    size_t p = c->holds.pos[i], cy = c->holds.cycles[i];
-    if (cy == c->cycle)
-        return p <= c->head;
-    return c->cycle >= 1 && cy == c->cycle - 1 && c->head <= p && p <= c->high;
-}
-static int
-inv_mapped_reader(const struct channel* c, const struct channel_reader* r)
-{
-    /* r->state == Mapped, r->id in 1..n */
-    unsigned i = r->id - 1;
-    size_t p = c->holds.pos[i], cy = c->holds.cycles[i];
-    size_t lim = (cy == c->cycle) ? c->head : c->high;
-    if (r->cycle == cy && p < r->pos && r->pos <= lim)
-        return 1;
-    if (r->pos == 0 && cy + 1 == c->cycle && r->cycle == c->cycle && p < c->high)
-        return 1;
-    return 0;
-}
-static size_t
-mapped_len(const struct channel* c, const struct channel_reader* r)
-{
-    unsigned i = r->id - 1;
-    if (r->cycle == c->holds.cycles[i])
-        return r->pos - c->holds.pos[i];
-    return c->high - c->holds.pos[i];
-}
-static int
-inv_channel(const struct channel* c, int wstate)
-{
-    if (!(1 <= c->capacity && c->capacity <= CAP_MAX)) return 0;
-    if (!(c->head <= c->capacity && c->high <= c->capacity && c->mapped <= c->capacity)) return 0;
-    if (!(c->holds.n <= R)) return 0;
-    if (!(c->is_accepting_writes <= 1)) return 0;
-    for (unsigned i = 0; i < R; ++i)
-        if (i < c->holds.n && !inv_reader_slot(c, i)) return 0;
-    if (wstate == W_MAPPED) {
-        if (!(c->head <= c->mapped)) return 0;
-        for (unsigned i = 0; i < R; ++i)
-            if (i < c->holds.n && c->holds.cycles[i] != c->cycle && !(c->mapped <= c->holds.pos[i])) return 0;
-    }
-#ifdef ALIGNED
-    if ((c->head | c->high | c->mapped) & 7) return 0;
-    for (unsigned i = 0; i < R; ++i)
-        if (i < c->holds.n && (c->holds.pos[i] & 7)) return 0;
-#endif
-    return 1;
-}
-
-/* ---- symbolic pre-state --------------------------------------------------------------- */
-static struct channel ch;
-static int wstate;
-static unsigned waits;
-
-static void
-draw_channel(void)
-{
-    ch.capacity = ND(size_t);
-    ch.head = ND(size_t);
-    ch.high = ND(size_t);
-    ch.cycle = ND(size_t);
-    ch.mapped = ND(size_t);
-    ch.is_accepting_writes = ND(uint8_t);
-    ch.holds.n = ND(unsigned);
-    for (unsigned i = 0; i < R; ++i) {
-        ch.holds.pos[i] = ND(size_t);
-        ch.holds.cycles[i] = ND(size_t);
-    }
-    wstate = ND(int);
-    VASSUME(wstate == W_IDLE || wstate == W_MAPPED);
-    VASSUME(inv_channel(&ch, wstate));
-    VASSUME(ch.cycle < CYC_MAX); /* non-inductive: 2^62 laps are unreachable */
-}
-static void
-draw_reader(struct channel_reader* r, int registered)
-{
-    r->pos = ND(size_t);
-    r->cycle = ND(size_t);
-    r->status = Channel_Ok;
-    r->state = ND(int);
-    VASSUME(r->state == ChannelState_Unmapped || r->state == ChannelState_Mapped);
-    if (registered) {
-        r->id = ND(unsigned);
-        VASSUME(1 <= r->id && r->id <= ch.holds.n);
-        if (r->state == ChannelState_Mapped)
-            VASSUME(inv_mapped_reader(&ch, r));
-    } else {
-        r->id = 0;
-        r->state = ChannelState_Unmapped;
-    }
-}
+#include "chan_model.h"
 
 /* snapshots */
 static struct channel pre;
